@@ -6,6 +6,7 @@ Monitors (reference-model monitors; the real code runs under generated dates / b
       - jpl.get_orbit(A, date) itself, then converted to B    (jpl.get_orbit + Orbit.copy(frame=))
       - an Earth satellite (EME2000) converted to every body frame and back, random vectors between
         body frames
+      - JplPropagator(kernel centre, frame of its target): the "reversed segment" branch (sign = -1)
     against the vector obtained by chaining the SPK segments directly (vmon/oracles/jpl_ref.py: own BFS over
     the kernel's (center, target) pairs with signs; km -> m, km/day -> m/s; TDB argument).
     Two comparisons per vector: (tight) oracle evaluated at the very float JD(TDB) the library hands to
@@ -43,6 +44,8 @@ ASSUMPTIONS = [
     "TDB-TT = 0.001657 sin g + 0.000014 sin 2g (Astronomical Almanac); library TDB accepted within 50 us of it",
     "the float JD handed to jplephem is read from the library's public Date API (date.change_scale('TDB').jd); "
     "it is only used after the instant has been confirmed against the own TDB",
+    "jpl.list_frames() and the class jpl.JplPropagator (module level, not in __all__) are used to reach the "
+    "reversed-segment branch the code documents ('EarthBarycenter with respect to the Moon')",
     "library frame names of kernel bodies = jplephem target name, title-cased, blanks removed (interface)",
     "IAU-1976 precession (Lieske) typed in vmon/oracles/jpl_ref.py rotates EME2000 -> MOD",
     "velocity clause: the reference derivative is a 60 s central difference of the library's own position function",
@@ -63,7 +66,7 @@ def jobs(tier):
     if tier == "quick":
         n, nd, ns = 64, 24, 6000
     else:
-        n, nd, ns = 2600, 400, 400000
+        n, nd, ns = 1000, 256, 160000
     return [
         {"name": "jpl-bsp", "n": n, "eop": "real", "jpl": "bsp", "mode": "pairs", "create": "explicit"},
         {"name": "jpl-pck", "n": n, "eop": "real", "jpl": "pck", "mode": "pairs", "create": "explicit"},
@@ -75,12 +78,13 @@ def jobs(tier):
 def requirements(tier):
     q = tier == "quick"
     return {
-        "pairs:zero-state": 240 * (100 if q else 3000),
-        "pairs:get_orbit-converted": 200 * (100 if q else 3000),
-        "pairs:get_orbit-direct": 15 * (100 if q else 3000),
-        "pairs:satellite-to-body": 16 * (100 if q else 3000),
-        "pairs:satellite-roundtrip": 16 * (100 if q else 3000),
+        "pairs:zero-state": 240 * (100 if q else 2000),
+        "pairs:get_orbit-converted": 200 * (100 if q else 2000),
+        "pairs:get_orbit-direct": 15 * (100 if q else 2000),
+        "pairs:satellite-to-body": 16 * (100 if q else 2000),
+        "pairs:satellite-roundtrip": 16 * (100 if q else 2000),
         "pairs:random-vector": 1000,
+        "pairs:reversed-propagator": 1000,
         "config:bsp": 1,
         "config:pck": 1,
         "config:dynamic-frames": 1,
@@ -177,13 +181,27 @@ def _classify(got, exp, tp, tv):
     return "vector-mismatch"
 
 
+_SUSPECT = {"first": None, "budget": 400}
+
+
 def _time_suspect(K, date, target, origin, got, tp):
-    """On a mismatch: does the result match the oracle evaluated with another clock's JD? (diagnosis only)"""
-    for sc in ("UTC", "TAI", "TT", "GPS", "UT1"):
+    """On a mismatch: does the result match the oracle evaluated with another clock's JD? (diagnosis only;
+    bounded effort: the scale found first is tried first, at most 400 diagnoses per subprocess)"""
+    order = ["UTC", "TAI", "TT", "GPS", "UT1"]
+    if _SUSPECT["first"] in order:
+        order.remove(_SUSPECT["first"])
+        order.insert(0, _SUSPECT["first"])
+    if _SUSPECT["budget"] <= 0:
+        if _SUSPECT["first"] is None:
+            return None
+        order = order[:1]
+    _SUSPECT["budget"] -= 1
+    for sc in order:
         try:
             jd = date.change_scale(sc).jd
             e, _, _ = K.state(target, origin, jd)
             if np.linalg.norm(got[:3] - e[:3]) <= tp:
+                _SUSPECT["first"] = sc
                 return sc
         except Exception:
             pass
@@ -261,14 +279,21 @@ def run_pairs(ctx, job, idx, rng, st):
         # effect of a sign/unit/chain error (>= 1e-3 L)
         tp = 1e-3 + 1e-12 * L
         tv = 1e-9 + 1e-12 * Lv
-        w = dict(descr, method=method, target=[target, names[target]], origin=[origin, names[origin]],
-                 got=[float(x) for x in got], expected=[float(x) for x in e_lib], jd_tdb_library=jd_lib)
-        if extra:
-            w.update(extra)
         dp = float(np.linalg.norm(got[:3] - e_lib[:3]))
         dv = float(np.linalg.norm(got[3:] - e_lib[3:]))
+        dpo = float(np.linalg.norm(got[:3] - e_own[:3]))
+        tpo = tp + vrel * TIME_SLACK
         bad = not (dp <= tp and dv <= tv)
-        key = None
+        key = w = msg = msg_t = None
+        if bad or not (dpo <= tpo):
+            # witness / mechanism only when something is off (keeps the common path cheap)
+            w = dict(descr, method=method, target=[target, names[target]], origin=[origin, names[origin]],
+                     got=[float(x) for x in got], expected=[float(x) for x in e_lib], jd_tdb_library=jd_lib)
+            if extra:
+                w.update(extra)
+            msg = f"{method}: {names[target]} relative to {names[origin]} at {scale} {d} {s}: |dr|={dp:.6g} m, |dv|={dv:.6g} m/s vs chained segments"
+            msg_t = (f"{method}: {names[target]} rel. {names[origin]}: {dpo:.6g} m from the segments evaluated at the own TDB "
+                     f"(speed {vrel:.5g} m/s)")
         if bad:
             base = add if add is not None else np.zeros(6)
             mech = _classify(got - base, e_lib - base, tp, tv)
@@ -277,14 +302,10 @@ def run_pairs(ctx, job, idx, rng, st):
                 if sc:
                     mech = f"time-argument-is-{sc}-not-TDB"
             key = f"C18/jpl-{mech}"
-        msg = f"{method}: {names[target]} relative to {names[origin]} at {scale} {d} {s}: |dr|={dp:.6g} m, |dv|={dv:.6g} m/s vs chained segments"
         ctx.resid("jpl:pos@library-jd (m)", dp, tp, key=key, witness=w, msg=msg)
         ctx.resid("jpl:vel@library-jd (m/s)", dv, tv, key=key if dp <= tp else None, witness=w, msg=msg)
         # time: oracle at the harness' own TDB; allowance = relative speed x slack
-        dpo = float(np.linalg.norm(got[:3] - e_own[:3]))
-        ctx.resid("jpl:pos@own-tdb (m)", dpo, tp + vrel * TIME_SLACK,
-                  key=None if bad else "C18/jpl-time-argument-not-tdb", witness=w,
-                  msg=f"{method}: {names[target]} rel. {names[origin]}: {dpo:.6g} m from the segments evaluated at the own TDB (speed {vrel:.5g} m/s)")
+        ctx.resid("jpl:pos@own-tdb (m)", dpo, tpo, key=None if bad else "C18/jpl-time-argument-not-tdb", witness=w, msg=msg_t)
         return not bad
 
     bodies = K.bodies
@@ -329,6 +350,18 @@ def run_pairs(ctx, job, idx, rng, st):
                     ctx.violation("C18/frame-conversion-raises", dict(descr, src=names[A], dst=names[B], exc=repr(exc), method="get_orbit.copy"),
                                   f"get_orbit({names[A]}).copy(frame={names[B]}) raised {exc!r}")
     ctx.count("pairs-per-date-evaluated", nz)
+
+    # ---- the propagator used "the other way round" (kernel centre seen from its target: the library then
+    #      takes the available segment and reverses it -- the sign = -1 branch of JplPropagator.propagate) ----
+    fr = {f.name: f for f in jpl.list_frames()}
+    for (c, t) in K.segs:
+        try:
+            rev = jpl.JplPropagator(fr[names[c]].center, fr[names[t]]).propagate(date)
+            ctx.count("pairs:reversed-propagator")
+            compare("JplPropagator(centre, frame=target)", c, t, probe.arr(rev))
+        except Exception as exc:
+            ctx.violation("C18/reversed-propagator-raises", dict(descr, obj=names[c], frame=names[t], exc=repr(exc)),
+                          f"JplPropagator({names[c]}, frame {names[t]}) raised {exc!r}")
 
     # ---- an Earth satellite seen from every body, and back --------------------------------------
     r = 6.6e6 + rng.random() * 4e7
@@ -484,7 +517,7 @@ def run_sunmoon(ctx, job, idx, rng, st):
             try:
                 frame = st[low + "_frame"]
                 o = probe.arr(StateVector([0.0] * 6, date, "cartesian", frame).copy(frame=declared))
-                xo = probe.arr(orb) if declared in ("EME2000", "MOD") else probe.arr(orb)
+                xo = probe.arr(orb)
                 ctx.resid(f"{low}:frame origin (m)", float(np.linalg.norm(o[:3] - xo[:3])), 1e-6 * max(1.0, float(np.linalg.norm(xo[:3])) / 1e9),
                           key="C18/solarsystem-frame-origin-not-body", witness=dict(descr, body=body, origin=o.tolist(), body_state=xo.tolist()),
                           msg=f"origin of frame {body} differs from {body} propagate()")
